@@ -140,6 +140,11 @@ JOBS = [
            "(hence at most 3 migration hops), all loops unwound with unwinding assertions; loop contracts would havoc descriptor pointers "
            "that are dereferenced afterwards, which CBMC's symbolic execution does not survive"),
 ] + [
+  Job("c15.worker_start", TU3, "h_worker_start", defines=["-DNW_MAX=4"],
+      replace=["myth_sched_loop/ws_sched_loop_contract"], replace_calls=["myth_setup_worker:verif_ws_setup", "myth_cleanup_worker:verif_ws_cleanup"],
+      fuc=["myth_worker_start_ex_body"], timeout=200,
+      note="a worker of rank > 0 (rank 1 of 2: the body does not depend on the rank): set-up, loop, clean-up once each in order, and no scheduler stack recorded when the clean-up (which frees it) is reached"),
+] + [
   Job("c15.setup_worker.rank%d.bounded" % rk, TU3, "h_setup_worker", kind="bounded", defines=["-DNW_MAX=4", "-DSETUP_RANK=%d" % rk],
       replace=["myth_flmalloc_init_worker/flmalloc_init_worker_contract", "real_pthread_setspecific/setspecific_contract", "time/time_contract",
                "myth_queue_init/queue_init_contract", "myth_queue_clear/queue_clear_contract",
